@@ -240,7 +240,17 @@ func (p *Prog) globalWrites() []GlobalWrite {
 										if fn.Pkg() != nil {
 											pk = fn.Pkg().Path()
 										}
-										atomic := pk == "sync/atomic" || pk == "sync"
+										atomic := pk == "sync/atomic"
+										if pk == "sync" {
+											// locks and barriers synchronise; sync.Pool / sync.Map carry data between calls
+											rn := ""
+											if pt, ok := r.Type().(*types.Pointer); ok {
+												if nt, ok := pt.Elem().(*types.Named); ok {
+													rn = nt.Obj().Name()
+												}
+											}
+											atomic = rn == "Mutex" || rn == "RWMutex" || rn == "Once" || rn == "WaitGroup"
+										}
 										res = append(res, GlobalWrite{Var: g, Func: n, Pos: p.pos(x), How: "method " + extFullName(fn) + " on " + exprString(se.X), Atomic: atomic})
 									}
 								}
@@ -393,11 +403,11 @@ func (p *Prog) FrameObligations(prop string) []*Obligation {
 	case "C10", "C09":
 		tags := []string{prop}
 		var entries []string
+		entries = append(append([]string{}, entryPoints...), "validator.ValidateCompiledWithConfiguration")
 		if prop == "C10" {
 			entries = entryPoints
-		} else {
-			entries = []string{"pkg.ValidateCompiled", "pkg.ValidateCompiledWithConfiguration", "validator.ValidateCompiledWithConfiguration"}
 		}
+		allowState := loadAllow("c09_allowed_state.txt")
 		gw := p.globalWrites()
 		for _, e := range entries {
 			if p.Funcs[e] == nil {
@@ -407,13 +417,26 @@ func (p *Prog) FrameObligations(prop string) []*Obligation {
 			reach := p.reachableFrom([]string{e})
 			var bad []string
 			for _, w := range gw {
-				if reach[w.Func] && !w.Atomic {
-					bad = append(bad, fmt.Sprintf("%s.%s written in %s at %s (%s)", w.Var.Pkg().Name(), w.Var.Name(), w.Func, w.Pos, w.How))
+				if !reach[w.Func] {
+					continue
 				}
+				if prop == "C10" && w.Atomic {
+					continue
+				}
+				if prop == "C09" {
+					// history independence: even synchronised package state carries information from call to call
+					if _, ok := allowState["global:"+w.Var.Pkg().Name()+"."+w.Var.Name()+"@"+w.Func]; ok {
+						continue
+					}
+				}
+				bad = append(bad, fmt.Sprintf("%s.%s written in %s at %s (%s)", w.Var.Pkg().Name(), w.Var.Name(), w.Func, w.Pos, w.How))
 			}
 			sort.Strings(bad)
-			obls = append(obls, analysisObl("frame:"+e+"#no-unsynchronised-package-state", "frame", tags, len(bad) == 0,
-				"no function reachable from "+e+" writes a package-level variable (or memory reached from one) except through sync/atomic or sync", p.pos(p.Funcs[e].Body()), strings.Join(bad, "\n"), e))
+			name, text := "frame:"+e+"#no-unsynchronised-package-state", "no function reachable from "+e+" writes a package-level variable (or memory reached from one) except through sync/atomic or a lock"
+			if prop == "C09" {
+				name, text = "frame:"+e+"#no-package-state", "no function reachable from "+e+" writes package-level state (synchronised or not) other than what spec/c09_allowed_state.txt justifies"
+			}
+			obls = append(obls, analysisObl(name, "frame", tags, len(bad) == 0, text, p.pos(p.Funcs[e].Body()), strings.Join(bad, "\n"), e))
 			// goroutines
 			var spawns []string
 			for n := range reach {
@@ -486,7 +509,7 @@ func (p *Prog) FrameObligations(prop string) []*Obligation {
 		gvars := map[string]string{}
 		for _, w := range p.globalWrites() {
 			if reach[w.Func] {
-				k := "global:" + w.Var.Pkg().Name() + "." + w.Var.Name()
+				k := "global:" + w.Var.Pkg().Name() + "." + w.Var.Name() + "@" + w.Func
 				gvars[k] = fmt.Sprintf("written in %s at %s (%s)", w.Func, w.Pos, w.How)
 			}
 		}
